@@ -31,6 +31,7 @@ K_DNS = {"unit": "dns", "inject": "elvis-core/src/protocols/dns/dns_parsing.rs",
 K_FRAG = {"unit": "frag", "inject": "elvis-core/src/protocols/ipv4/fragmentation.rs", "crate": "elvis-core"}
 K_REASMMAP = {"unit": "reasmmap", "inject": "elvis-core/src/protocols/ipv4/reassembly.rs", "crate": "elvis-core"}
 K_IPGEN = {"unit": "ipgen", "inject": "elvis/src/ip_generator.rs", "crate": "elvis"}
+K_ROUTER = {"unit": "router", "inject": "elvis/src/applications/arp_router.rs", "crate": "elvis"}
 
 PROPS = {
     "C02": {
@@ -94,7 +95,7 @@ PROPS = {
         "explanation": "reassembly bookkeeping per RFC 791 p.28 steps (8)-(17)",
     },
     "C18": {
-        "units": ["checksum", "udpck", "tcpck"],
+        "units": ["checksum", "udpck", "tcpck", "ipck", "subnet"],
         "kani": [K_CHECKSUM, K_IPV4HDR, K_TCPHDR, K_UDPHDR],
         "level": "proof",
         "technique": "Verus contracts on the extracted compute_checksum variants of Checksum (unbounded payload loop) + RFC 1071 algebra lemmas; Kani complete harnesses on the real crate built with --features compute_checksum",
@@ -114,7 +115,7 @@ PROPS = {
         "explanation": "decoder panic-freedom",
     },
     "C08": {
-        "units": ["dhcp", "dns"],
+        "units": ["dhcp", "dns", "ipck", "subnet", "checksum"],
         "kani": [K_IPV4HDR, K_UDPHDR, K_TCPHDR, K_ARP, K_DHCP, K_DNS],
         "level": "proof",
         "technique": "Kani full-domain harnesses (loop-free => complete) on the real codec functions: decode/re-encode, encode/decode, RFC wire layout",
@@ -152,6 +153,16 @@ PROPS = {
         "level_note": "Trusted: Verus/Z3, Kani/CBMC; assumed specs of u32::{to,from}_be_bytes, count_ones, Result::or, RangeInclusive::{start,end,==}, derive(PartialEq/Ord) on the [u8;4]/u32 newtypes (each validated by a Kani h_assume_* harness against real core). vstd's opaque key_obeys_cmp_spec::<Obm>() is assumed (its content - Obm::cmp equals a lawful total order - is proved); IpTable::iter()'s one-line map adapter is inlined by a declared rewrite. add_cidr/remove_cidr/default_gateway and the FromIterator impls are not under contract. CIDR text parsing (std::net::Ipv4Addr::from_str) is not decided. `impl From<(Ipv4Address,Ipv4Mask)> for Ipv4Net` is not under contract.",
         "assumptions": ["Ipv4Mask values are only built by from_bitcount/try_from (private field) so mask.wf() is a type invariant", "CIDR text clause undecided"],
         "explanation": "subnet arithmetic contracts; routing-table clause see ip_table obligations",
+    },
+    "C16": {
+        "units": ["router", "ipck", "iptable", "subnet", "message", "checksum"],
+        "kani": [K_ROUTER],
+        "level": "proof",
+        "technique": "Verus contract on the extracted synchronous part of ArpRouter::demux (per-hop forwarding step) on top of the contracts of Ipv4Header::serialize, IpTable::get_recipient and Message::header_inner; the bound on the number of hops is a lemma over that contract",
+        "level_text": "PER-HOP CLAUSES of C16, for every header, payload (unbounded, any chunk layout), routing table and router configuration satisfying the configuration invariant: ArpRouter::demux (the real synchronous body) never forwards a datagram that arrives with time-to-live 0 or 1; what it forwards carries the arriving header with the time-to-live decremented by exactly one, every other field as received (checksum recomputed), in front of the unchanged payload; the next hop is the gateway of the longest-prefix route for the destination (the destination itself for a directly attached subnet), on that route's tap slot, from the router's own address on that slot; without a route nothing is forwarded; one call hands on at most one datagram. No panic (TTL arithmetic, slot index, serialisation) for any input. Lemma: since every forwarding strictly decreases the TTL and TTL <= 1 is never forwarded, a datagram with initial TTL t is forwarded by at most t-1 routers on any route, loops included ('dropped after at most its initial time-to-live hops').",
+        "level_note": "Trusted: Verus/Z3; Ipv4Header::serialize / Ipv4HeaderBuilder::build verified in unit ipck (compute_checksum configuration; in the default configuration the checksum field is 0 and no other byte differs), IpTable::get_recipient in unit iptable, Message::header_inner in unit message - all imported by contract. Declared rewrites (listed in the evidence) REMOVE everything that is not sequential: the parameters Arc<dyn Session> / Arc<Machine>, Control (TypeId map; replaced by an opaque value whose only observable is the stored Ipv4Header, assumed-contract accessor), and the asynchronous tail tokio::spawn(arp.resolve(..) then send_pci(..)) which is replaced by returning what it is given. NOT decided: that ARP resolves the next hop, that the frame reaches the wire and the destination host ('delivered to the destination and to no other host'), multi-hop composition over a topology other than the TTL bound, that the networks fall silent, the outgoing MTU (the router does not re-fragment), Ipv4::demux/Ipv4Session::receive in front of the router (DashMap / Arc<dyn Protocol>).",
+        "assumptions": ["the header in the context is one the IPv4 decoder produced (total_length >= 20, fragment offset <= 0x1fff)", "every route names a tap slot the router has a local address for (configuration invariant)", "ARP / PCI hand-over not modelled"],
+        "explanation": "router per-hop forwarding step and TTL bound",
     },
     "C12": {
         "units": ["modcmp", "tcb", "message"],
